@@ -493,6 +493,11 @@ class RuleGen:
                         self.feats.add("invocation_inside_disjunction")
                     alts.append([a])
                 it = ["disj", alts]
+                if any(a_[0][0] == "inv" for a_ in alts) and rng.random() < 0.8:
+                    items.append(it)
+                    it = self.inv()
+                    if it is not None:
+                        self.feats.add("invocation_after_disjunction_with_invocation")
             if it is not None:
                 items.append(it)
         return items
@@ -715,3 +720,59 @@ def chain(n, disj=False):
         ms.append(dict(name=k, params=[[0, True]], body=[["disj", [[inv]]] if disj else inv]))
     r = dict(heads=[["h", "d1", [tv(cid("a"))]]], body=[["inv", n - 1, [tv(cid("a"))]]])
     return dict(rels=copy.deepcopy(RELS), macros=ms, rules=[r], head_macros=[])
+
+
+# ------------------------------------------------------------------ call patterns around disjunctions (every run)
+# The per-rule name supply must be threaded THROUGH a disjunction: names drawn for an invocation inside `( .. | .. )`
+# have to be seen by the invocations that follow it (and names drawn before it by the ones inside).  Each pattern comes
+# with a designed input on which identifying the locals of two invocations changes the result.
+
+PATTERNS = ["disj_then_inv", "inv_then_disj", "inv_in_two_disjuncts_then_inv", "nested_disj_then_inv", "disj_in_macro_body_then_inv",
+            "disj_then_other_macro_same_local", "disj_then_two_invs", "inv_disj_inv", "nested_disj_both_levels", "disj_with_nested_macro_then_inv"]
+
+
+def gen_pattern(rng, i):
+    kind = PATTERNS[i % len(PATTERNS)]
+    A, Ao = rng.choice([("e0", "e1"), ("e1", "e0")])          # A: the macro's join relation; Ao: the alternative's
+    B, K = rng.choice([("u0", "u1"), ("u1", "u0")])           # B: filter on the local; K: binds the rule's variables
+    v = rng.choice(POOL)
+    a, b = rng.sample([n for n in POOL if n != v] if rng.random() < 0.5 else POOL, 2)     # sometimes spelled like the local
+    if a == b:
+        b = [n for n in POOL if n != a][0]
+    extra = rng.random() < 0.4
+
+    def body(m, first=par(0)):
+        its = [["clause", A, [tv(first), tv(lid(v, m))], []], ["clause", B, [tv(lid(v, m))], [["if", "ne", [lid(v, m), first]]] if extra else []]]
+        return its
+    macros = [dict(name=0, params=[[0, True]], body=body(0))]
+    inv = lambda x, m=0: ["inv", m, [tv(cid(x))]]            # noqa: E731
+    alt = lambda x: ["clause", Ao, [tv(cid(x)), tv(cid(x))], []]      # noqa: E731  holds for one value only
+    pre = [["clause", K, [tv(cid(a))], []], ["clause", K, [tv(cid(b))], []]]
+    if kind == "disj_then_inv":
+        rb = pre + [["disj", [[inv(a)], [alt(a)]]], inv(b)]
+    elif kind == "inv_then_disj":
+        rb = pre + [inv(a), ["disj", [[inv(b)], [alt(b)]]]]
+    elif kind == "inv_in_two_disjuncts_then_inv":
+        rb = pre + [["disj", [[inv(a)], [alt(a), inv(a)]]], inv(b)]
+    elif kind == "nested_disj_then_inv":
+        rb = pre + [["disj", [[["disj", [[inv(a)], [alt(a)]]]], [alt(a)]]], inv(b)]
+    elif kind == "disj_in_macro_body_then_inv":
+        macros.append(dict(name=1, params=[[0, True], [1, True]], body=[["disj", [[["inv", 0, [tv(par(0))]]], [["clause", Ao, [tv(par(0)), tv(par(0))], []]]]], ["inv", 0, [tv(par(1))]]]))
+        rb = pre + [["inv", 1, [tv(cid(a)), tv(cid(b))]]]
+    elif kind == "disj_then_other_macro_same_local":
+        macros.append(dict(name=1, params=[[0, True]], body=body(1)))
+        rb = pre + [["disj", [[inv(a, 0)], [alt(a)]]], inv(b, 1)]
+    elif kind == "disj_then_two_invs":
+        rb = pre + [["disj", [[alt(a)], [inv(a)]]], inv(b), inv(b)]
+    elif kind == "inv_disj_inv":
+        rb = pre + [inv(a), ["disj", [[inv(a)], [alt(b)]]], inv(b)]
+    elif kind == "nested_disj_both_levels":
+        rb = pre + [["disj", [[inv(a), ["disj", [[inv(a)], [alt(a)]]]], [alt(a)]]], inv(b)]
+    else:
+        macros = [dict(name=0, params=[[0, True]], body=body(0)), dict(name=1, params=[[0, True]], body=[["inv", 0, [tv(par(0))]]])]
+        rb = pre + [["disj", [[inv(a, 1)], [alt(a)]]], inv(b, 1)]
+    heads = [["h", "d0", [tv(cid(a)), tv(cid(b))]]]
+    p = dict(rels=copy.deepcopy(RELS), macros=macros, rules=[dict(heads=heads, body=rb)], head_macros=[])
+    # designed input: every key 1, 3, 5 has a witness of its own for the local; the alternative holds for 5 only
+    designed = {A: [(1, 2), (3, 4), (5, 0)], B: [(0,), (2,), (4,)], K: [(1,), (3,), (5,)], Ao: [(5, 5)], "d0": [], "d1": [], "d2": []}
+    return kind, p, designed
